@@ -1,5 +1,6 @@
 import PqV.Impl.Sched
 import Mathlib.Tactic.Linarith
+import PqV.Gen.PerCall
 /-!
 # C20 — concurrent reads and derived handles give the same results as sequential use
 -/
@@ -189,5 +190,17 @@ theorem finished_threads_observe_as_alone (g : Nat → Int) (isMemo : Nat → Bo
     simp [List.getD_eq_getElem?_getD, List.getElem?_replicate, hv]
   obtain ⟨s', ths', _, _, _, _, hag⟩ := noninterference g isMemo s0 th0 sched s0 th0 _ (inv_refl g isMemo s0) hok h0
   exact ⟨_, hag u hu⟩
+
+/-- the per-call resources the property names, as the source has them now (REGENERATED): `to_pandas`
+    binds the file it opens to a local name (one file object per call, nothing cached on the handle) and
+    works on a copy of the caller's column list; `make_part_file` copies the shared file metadata
+    before it changes `row_groups` / `num_rows`; the run-header scratch arrays of `make_definitions`
+    and `encode_dict` are allocated inside the call; writer, reader and api have no module-level array
+    or bytearray.  These are the facts that make the operations of the interleaving model
+    (`noninterference`) consist of reads and memo publications only. -/
+theorem per_call_resources_now :
+    PqV.Gen.PerCall.fileObjectPerReadCall = true ∧ PqV.Gen.PerCall.columnListCopied = true ∧
+    PqV.Gen.PerCall.partFileCopiesMetadataBeforeChangingIt = true ∧ PqV.Gen.PerCall.levelScratchPerCall = true ∧
+    PqV.Gen.PerCall.dictScratchPerCall = true ∧ PqV.Gen.PerCall.moduleLevelBuffers = [] := by decide
 
 end PqV.Props.C20
